@@ -190,7 +190,36 @@ def rule_e(prog, rep):
                         return True
             return False
 
+        def filtered_before_test(t):
+            """the operand of the missing test reaches the column only through a row selection (boolean mask / comparison
+            index), so some rows never take part in the test"""
+            for x in tm.walk(t):
+                if x.op == "call" and tm.callee_name(x) == "numpy.isnan" and x.args[1] and tm.contains(x.args[1][0], lambda y: y == leaf):
+                    cur = x.args[1][0]
+                    while cur != leaf and cur.op in ("sub", "call", "attr"):
+                        if cur.op == "sub":
+                            idx = cur.args[1]
+                            perm = idx.op == "call" and (tm.callee_name(idx) or "") in (".argsort", "numpy.argsort", "numpy.lexsort")
+                            if not perm and tm.contains(idx, lambda y: y.op in ("cmp", "unop") or (y.op == "call" and (tm.callee_name(y) or "") in ("numpy.isnan", "numpy.isfinite", "numpy.nonzero", "numpy.flatnonzero", "numpy.where"))):
+                                return idx
+                            cur = cur.args[0]
+                        elif cur.op == "call" and (tm.callee_name(cur) or "").startswith("."):
+                            cur = cur.args[0].args[0]
+                        elif cur.op == "attr":
+                            cur = cur.args[0]
+                        else:
+                            break
+            return None
+
         guarded = any(whole_array_test(c) for c, pol in ev.guards)
+        sel = None
+        for c, pol in ev.guards:
+            sel = sel or filtered_before_test(c)
+        if sel is not None:
+            rep.violated("R-C18-e", "%s@%d" % (where, ev.line), "weighted quantile, propagate: the missing test sees every row of the segment",
+                         "rows are selected by %s BEFORE the missing test: a missing fact value on a row that the selection drops (zero or negative weight) no longer makes the cell missing" % tm.show(sel)[:50],
+                         witness={"inputs": "quantile of [1, 2, nan] with weights [1, 1, 0], ignore_missing=False -> a number instead of nan (both report formats)"})
+            continue
         gather_only = True
         for x in tm.walk(v):
             if x.op == "call" and (tm.callee_name(x) or "") in ("numpy.sum", ".sum", "numpy.nansum", "numpy.mean", "numpy.max", "numpy.min") and tm.contains(x, lambda y: y == leaf):
